@@ -52,6 +52,23 @@ def main():
     os.makedirs(d, exist_ok=True)
     shutil.copy(a.diff, os.path.join(d, 'patch.diff'))
     shutil.copy(a.demo, os.path.join(d, 'demo.py'))
+    # helper modules the demonstration imports from its own directory travel with it
+    import ast
+    src_dir = os.path.dirname(os.path.abspath(a.demo))
+    try:
+        tree = ast.parse(open(a.demo).read())
+        mods = set()
+        for n in ast.walk(tree):
+            if isinstance(n, ast.Import):
+                mods |= {x.name.split('.')[0] for x in n.names}
+            elif isinstance(n, ast.ImportFrom) and n.level == 0 and n.module:
+                mods.add(n.module.split('.')[0])
+        for m in sorted(mods):
+            hp = os.path.join(src_dir, m + '.py')
+            if os.path.isfile(hp):
+                shutil.copy(hp, os.path.join(d, m + '.py'))
+    except (SyntaxError, OSError):
+        pass
     prev = None
     mp = os.path.join(d, 'meta.json')
     if os.path.exists(mp):
